@@ -18,7 +18,7 @@ from ..callgraph import get_callgraph
 from ..cfg import cfg_of
 from ..flow import defuse, names_in
 from ..guards import src
-from ..index import AnalysisError, ClassInfo, FuncInfo, Index, Module, call_name, dotted, fold_const, is_const, walk_no_nested
+from ..index import AnalysisError, ClassInfo, FuncInfo, Index, Module, call_name, dotted, enclosing_stmt, fold_const, is_const, walk_no_nested
 from ..report import Results
 from ..tables.inert import INERT_PRIM_PARAMS
 from ..tables.jax_prims import get_jax_prims
@@ -289,7 +289,19 @@ def run(res: Results, idx: Index, tier: str) -> None:
     run_priority_cascades(res, idx)
     run_structured_param_fields(res, idx)
     run_static_start_clamp(res, idx)
+    run_producer_op_tests(res, idx)
     _rule_i(res, idx, tier)
+    if not getattr(res, "_nested_xref", False):
+        # dimension arithmetic that enters the graph as values (reshape targets, slice limits) is served from LowerDimExpr's memo
+        # tables: a key that forgets the operation returns another operation's node (C04 R-C04h)
+        from . import c04
+        res.rule("R-C01o", "memoised dimension-expression nodes are keyed by everything the node depends on (C04 R-C04h)", floor=3)
+        sub4 = Results("C04", tier)
+        setattr(sub4, "_nested_xref", True)
+        c04.rule_h(sub4, idx)
+        for inst in sub4.instances:
+            if inst.rule == "R-C04h":
+                res.add("R-C01o", inst.status, inst.site, f"R-C04h::{inst.key}", f"[C04 R-C04h] {inst.detail}", inst.func)
 
 
 def _rule_i(res: Results, idx: Index, tier: str) -> None:
@@ -568,3 +580,53 @@ def run_static_start_clamp(res: Results, idx: Index) -> None:
         else:
             res.violation("R-C01n", f"{rel}:{st.lineno}", key, f"`{src(st, 70)}` stores the constant start index as it is: for a start beyond operand extent - slice size (mode clip) JAX clamps the window, "
                           "the emitted Slice truncates it — fewer rows than declared and other values", f.qualname)
+
+
+# ---------------------------------------------------------------------------------------------- R-C01p
+from ..guards import path_conditions as _path_conditions
+
+
+def run_producer_op_tests(res: Results, idx: Index) -> None:
+    """A lowering that looks at the PRODUCER of an operand to pick a fused form (`Abs` before a windowed sum -> LpPool) tests an
+    IR node's op_type.  The call node of an @onnx_function carries the function's name as op_type in its own domain, and
+    users name their blocks freely: a test by name alone treats such a call as the standard operator (same defect class as
+    C02 R-C02n in the optimizer).  Every comparison of an IR node's op_type with an operator-name literal inside a plugin's
+    lowering must be accompanied by a domain test on the same object."""
+    res.rule("R-C01p", "plugin lowerings that branch on a producer's operator name also test its domain", floor=1)
+    n = 0
+    for m in idx.product_modules():
+        if "/plugins/" not in m.rel or ".examples" in m.name or m.rel.endswith("_post_check_onnx_graph.py"):
+            continue
+        for fi in m.funcs.values():
+            if not (fi.name == "lower" or fi.name.startswith("_lower") or fi.name.startswith("lower_")):
+                continue
+            for c in walk_no_nested(fi.node):
+                if not (isinstance(c, ast.Compare) and len(c.ops) == 1 and isinstance(c.ops[0], (ast.Eq, ast.NotEq, ast.In, ast.NotIn))):
+                    continue
+                left = c.left
+                obj = None
+                if isinstance(left, ast.Attribute) and left.attr == "op_type":
+                    obj = src(left.value, 60)
+                elif isinstance(left, ast.Call) and (call_name(left) or "") == "getattr" and len(left.args) >= 2 and isinstance(left.args[1], ast.Constant) and left.args[1].value == "op_type":
+                    obj = src(left.args[0], 60)
+                if obj is None:
+                    continue
+                lit = [k for k in ast.walk(c.comparators[0]) if isinstance(k, ast.Constant) and isinstance(k.value, str) and k.value[:1].isupper()]
+                if not lit:
+                    continue
+                n += 1
+                key = f"{m.rel}::{fi.qualname}::producer-op::{lit[0].value}"
+                site = f"{m.rel}:{c.lineno}"
+                # a domain test on the same object in the enclosing boolean expression / statement / dominating guards
+                st = enclosing_stmt(c)
+                scope_nodes = [st] + [e for e, _w in _path_conditions(c)]
+                has_dom = any((isinstance(x, ast.Attribute) and x.attr == "domain" and src(x.value, 60) == obj)
+                              or (isinstance(x, ast.Call) and (call_name(x) or "") == "getattr" and len(x.args) >= 2 and isinstance(x.args[1], ast.Constant) and x.args[1].value == "domain" and src(x.args[0], 60) == obj)
+                              or (isinstance(x, ast.Call) and (call_name(x) or "").endswith("_is_standard_onnx_node"))
+                              for sn in scope_nodes for x in ast.walk(sn))
+                if has_dom:
+                    res.ok("R-C01p", site, key, f"`{src(c, 50)}` is accompanied by a domain test on `{obj}`", fi.qualname)
+                else:
+                    res.violation("R-C01p", site, key, f"`{src(c, 60)}` selects a lowering by the producer's operator NAME only: the call node of an @onnx_function named `{lit[0].value}` has that op_type in its own domain "
+                                  "and is taken for the standard operator", fi.qualname)
+    res.analysed["producer_op_tests"] = n
